@@ -15,7 +15,7 @@ SCRATCH = os.path.join(BUILD_ROOT, "scratch-C20")
 WORKERS = 8
 SAN = "hard"
 TOOL_TIMEOUT = 30
-FILE_BACKED = {"empty", "newline", "no-final-newline", "nul-in-line", "crlf", "bad-utf8-word", "long-line", "page-exact", "page-exact-no-nl",
+FILE_BACKED = {"edge-block", "edge-block-plus1", "empty", "newline", "no-final-newline", "nul-in-line", "crlf", "bad-utf8-word", "long-line", "page-exact", "page-exact-no-nl",
                "two-pages-no-nl", "gz-valid", "gz-truncated-8", "bz2-corrupt-mid", "xz-valid", "b64-empty-doc", "warc-ok", "warc-trunc-body"}
 SAN_ENV = {"ASAN_OPTIONS": "detect_leaks=0:allocator_may_return_null=1:abort_on_error=0", "UBSAN_OPTIONS": "print_stacktrace=0"}
 CRASH_SIGNALS = {4: "SIGILL", 7: "SIGBUS", 8: "SIGFPE", 11: "SIGSEGV"}
@@ -319,6 +319,10 @@ def generic_streams(rng, tier):
         ("tabs", b"\t\t\t\n\t\n"), ("few-fields", b"a\tb\n"), ("many-fields", b"a\tb\tc\td\te\tf\tg\th\n" * 3),
         ("long-line", b"a" * big + b"\n"), ("long-no-newline", b"b" * big), ("long-utf8", "é".encode() * (big // 2) + b"\n"),
         ("many-empty", b"\n" * 100000), ("long-spaces", b" " * 300000 + b"\n"),
+        # lines that end exactly at / one byte around util::FilePiece's read size (1052672) and twice that
+        ("edge-block-minus1", b"x" * 1052670 + b"\n" + b"tail\n"), ("edge-block", b"x" * 1052671 + b"\n" + b"tail\n"),
+        ("edge-block-plus1", b"x" * 1052672 + b"\n" + b"tail\n"), ("edge-2blocks", b"y" * (2 * 1052672 - 1) + b"\n"),
+        ("edge-block-cr", b"x" * 1052670 + b"\r\n" + b"tail"), ("edge-block-many", (b"z" * 1023 + b"\n") * 1028),
         ("astral", "a😀b 𝔘𝔫𝔦 \U0010ffff\n".encode()), ("bom", b"\xef\xbb\xbfabc\n"),
         ("gzip-magic-garbage", b"\x1f\x8b\x08\x00garbage-not-gzip\n"), ("bz-magic-garbage", b"BZh9garbage\n"), ("xz-magic-garbage", b"\xfd7zXZ\x00garbage\n"),
         ("gzip-truncated", bytes.fromhex("1f8b0800000000000003")),
@@ -480,7 +484,8 @@ def stream_matrix(c):
             streams = warc + gen[:12]
         if c.tier == "quick" and base.name not in ("b64filter", "warc_parallel", "truecase", "foldfilter", "idf", "shard"):
             # quick tier: every tool sees the structural cases; the megabyte cases go to a rotating third of the tools
-            heavy = {"long-line", "long-no-newline", "long-utf8", "many-empty", "long-spaces", "b64-long"}
+            heavy = {"long-line", "long-no-newline", "long-utf8", "many-empty", "long-spaces", "b64-long", "edge-block-minus1", "edge-block", "edge-block-plus1",
+                     "edge-2blocks", "edge-block-cr", "edge-block-many", "gz-long-line"}
             import zlib
             if base.name == "cache":
                 # known deadlock on long lines (F20-6): one megabyte case keeps it visible, each costs a full timeout
@@ -603,7 +608,7 @@ def part_tools(c, bindir_san, hx, bindir_rel):
                 rc, out, err = tr.run(t.argv(bindir_san, w, hx), t.stdin, timeout=TOOL_TIMEOUT, env=env, cwd=w)
                 # differential run: the uninstrumented -O2 build must behave the same (a difference means the result
                 # depends on something the language leaves undefined: uninitialised data, evaluation of garbage ...)
-                if rc != "timeout" and len(t.stdin) <= 300000 and t.name not in NONDETERMINISTIC:
+                if rc != "timeout" and len(t.stdin) <= 300000 and t.name not in NONDETERMINISTIC and not any("vchild" in a for a in t.args):
                     outs_san = {o: _slurp(os.path.join(w, o)) for o in t.outputs}
                     for o in t.outputs:
                         try:
@@ -612,7 +617,10 @@ def part_tools(c, bindir_san, hx, bindir_rel):
                             pass
                     rc2, out2, err2 = tr.run(t.argv(bindir_rel, w, hx), t.stdin, timeout=TOOL_TIMEOUT, cwd=w)
                     outs_rel = {o: _slurp(os.path.join(w, o)) for o in t.outputs}
-                    if classify(rc, err)[0] == "ok" and (out2 != out or outs_rel != outs_san or tr.status_class(rc2) != tr.status_class(rc)):
+                    same_status = tr.status_class(rc2) == tr.status_class(rc) or (tr.status_class(rc2)[0] == "signal" and tr.status_class(rc)[0] == "signal")
+                    # what a run leaves behind after an abnormal end depends on timing (buffers, threads): compare content only for exit 0
+                    content_differs = rc == 0 and rc2 == 0 and (out2 != out or outs_rel != outs_san)
+                    if classify(rc, err)[0] == "ok" and (content_differs or not same_status):
                         return j, rc, err, (rc2, out[:200], out2[:200])
             return j, rc, err, None
 
